@@ -485,6 +485,47 @@ impl<'a> Tc<'a> {
 		for (i, (_, verdict)) in flat.iter().enumerate() {
 			w.pois_check(exp[i], *verdict, &acq_desc(acq));
 		}
+		// While the hold is live the thread's key is inside the guard / lent to the call: asking
+		// for a key - even repeatedly - must not yield one (C03: a thread that can acquire holds
+		// nothing; C06).  A key obtained here is used at once on a held lock, which makes the
+		// thread wait for itself (C01 witness).
+		if !exp.is_empty() && (self.stats.sections + tid as u64) % 3 == 0 {
+			for attempt in 1..=2 {
+				if let Some(k2) = ThreadKey::get() {
+					self.v(
+						"C03",
+						"key_obtainable_while_holding",
+						format!("{}: ThreadKey::get() attempt {attempt} returned a key while the thread holds {:?}", acq_desc(acq), self.w.held(tid)),
+					);
+					self.v(
+						"C06",
+						"second_key_issued",
+						format!("{}: ThreadKey::get() attempt {attempt} returned a key while the key is inside a live guard / running scoped call", acq_desc(acq)),
+					);
+					let arena = self.arena;
+					let victim = arena
+						.leaf_ids
+						.iter()
+						.position(|id| exp.contains(id) && acq.mode == Mode::Excl);
+					match victim {
+						Some(li) => {
+							w.begin_call(tid, Class::Acquire, "second_key.lock", false);
+							let lk: &dyn Lk = match &arena.leaves[li] {
+								Leaf::M(l) => l,
+								Leaf::R(l) => l,
+								Leaf::PM(l) => l,
+								Leaf::PR(l) => l,
+							};
+							let g2 = lk.lock(k2, Mode::Excl); // self-wait: the World aborts the episode
+							w.end_call(tid);
+							drop(g2);
+						}
+						None => drop(k2),
+					}
+					break;
+				}
+			}
+		}
 		// scheduling point inside the critical section
 		w.yield_point(tid);
 		for (i, (pay, _)) in flat.iter_mut().enumerate() {
